@@ -69,6 +69,8 @@ type FnCtx struct {
 	sorts           map[string]string
 	constArrs       map[string]string
 	loopUnkPkgs     []*types.Package
+	cellFwd         map[string]cellStore // heap-array name -> the store that defined it (cells only)
+	freshRefs       map[string]bool      // references handed out by newRef in this function's paths (pairwise distinct along a path)
 	loopUnkFuncArg  bool
 	loopCellAllocs  map[string][]*ssa.Alloc
 	loopCellGeneric map[string]bool
@@ -117,9 +119,12 @@ func (c *FnCtx) lit(s string) string {
 
 type entryTerm struct{ Label, Sort, Term string }
 
+type cellStore struct{ prev, ref, val string }
+
 type nameBinding struct {
 	V      ssa.Value
 	IsAddr bool
+	Obj    types.Object // the source variable, when the binding came from a debug reference
 }
 
 type deferredCall struct {
@@ -583,7 +588,27 @@ func (s *State) readComp(a *Addr, c comp) string {
 		return sel(sel(s.heapGet(key, arrSort(sInt, arrSort(sInt, c.Sort))), a.Ref), a.Idx)
 	case "cell":
 		key := "cell|" + typeKey(a.T) + c.Suffix
-		return sel(s.heapGet(key, arrSort(sInt, c.Sort)), a.Ref)
+		h := s.heapGet(key, arrSort(sInt, c.Sort))
+		// store forwarding for local variables that live in memory (captured by a function literal): the value
+		// last stored at this very cell is read back as the stored term itself, skipping stores to OTHER cells
+		// allocated in this activation (references handed out by newRef are pairwise distinct). Purely a
+		// simplification of select-over-store that the solver would otherwise have to do under quantifiers.
+		if s.c.freshRefs[a.Ref] {
+			for n := h; ; {
+				e, ok := s.c.cellFwd[n]
+				if !ok {
+					break
+				}
+				if e.ref == a.Ref {
+					return e.val
+				}
+				if !s.c.freshRefs[e.ref] {
+					break
+				}
+				n = e.prev
+			}
+		}
+		return sel(h, a.Ref)
 	}
 	panic("readComp: bad space " + a.Space)
 }
@@ -602,7 +627,12 @@ func (s *State) writeComp(a *Addr, c comp, term string) {
 	case "cell":
 		key := "cell|" + typeKey(a.T) + c.Suffix
 		srt := arrSort(sInt, c.Sort)
-		s.heapSet(key, srt, sto(s.heapGet(key, srt), a.Ref, term))
+		prev := s.heapGet(key, srt)
+		s.heapSet(key, srt, sto(prev, a.Ref, term))
+		if s.c.cellFwd == nil {
+			s.c.cellFwd = map[string]cellStore{}
+		}
+		s.c.cellFwd[s.heap[key]] = cellStore{prev: prev, ref: a.Ref, val: term}
 	default:
 		panic("writeComp: bad space " + a.Space)
 	}
@@ -740,6 +770,10 @@ func (s *State) newRef() string {
 	}
 	r := s.define("ref", sInt, s.alloc)
 	s.alloc = s.define("alloc", sInt, app("+", s.alloc, "1"))
+	if s.c.freshRefs == nil {
+		s.c.freshRefs = map[string]bool{}
+	}
+	s.c.freshRefs[r] = true
 	return r
 }
 
